@@ -106,35 +106,39 @@ theorem create_requires_index_idle_partial {ok : Sys → Action → Prop} (hok :
       exfalso
       have : (step s .work).pods = s.pods := (work_idle s hget).pods
       rw [this] at hn; exact hnew hn
-  exact create_guard hb (inv2_of_reach hnf hr hwf) (inv3_of_reach hok hr hwf hwf3 (by rw [hj]; rfl))
-    (inv4_of_reach hnf hr hwf) hwf hc j hj hns idx retry hreq (he ▸ hnew)
+  exact create_guard hb (inv2_of_reach hr hwf) (owned_of_reach hnf hr) (inv3_of_reach hok hr hwf hwf3 (by rw [hj]; rfl))
+    (inv4_of_reach hr hwf) hwf hc j hj hns idx retry hreq (he ▸ hnew)
 
-/-- `retries_contiguous_partial` (histories WITHOUT foreign pods, every other action allowed; index
-hashes `WF2`): in every reachable state
+/-- `retries_contiguous` (ALL actions allowed — any fault pattern, informer lag, restart, clock,
+kubelet, external pod deletion, user kill / delete, and, since the repair of F22, FOREIGN PODS on any
+name, recorded ones included; index hashes `WF2`): in every reachable state
 * every ref of the authoritative status carries a retry number `0 ≤ r < maxAttempts`, and all lower retry
   numbers of ITS index are recorded too (so the refs of an index carry exactly `0 … k-1`,
-  `k ≤ maxAttempts`; with `C09Hist.recorded_refs_wellformed_partial` their names are
+  `k ≤ maxAttempts`; with `C09Hist.recorded_refs_wellformed` their names are
   `taskName job.name hash 0 … taskName job.name hash (k-1)`);
-* for every pod of the Job on the server, `taskName job.name hash retry`, all lower retry numbers of its
-  index are recorded in the authoritative status (a pod for retry `r` only ever exists after
-  `0 … r-1` were recorded; pods of lower retry numbers may be gone by then). -/
-theorem retries_contiguous_partial {ok : Sys → Action → Prop} (hok : ∀ s a, ok s a → noForeign s a) {j0 : JobObj}
+* for every pod on the server that is CONTROLLED BY THE JOB, `taskName job.name hash retry`, all lower
+  retry numbers of its index are recorded in the authoritative status (a pod for retry `r` only ever
+  exists after `0 … r-1` were recorded; pods of lower retry numbers may be gone by then).
+(Before the repair this was `retries_contiguous_partial`, proved only for histories without foreign
+pods: a foreign pod on a recorded name was read as the task.) -/
+theorem retries_contiguous {ok : Sys → Action → Prop} {j0 : JobObj}
     {s : Sys} (hr : Reach ok j0 s) (hwf : WF2 j0 s.d) (j : JobObj) (hj : s.job = some j) :
     (∀ r ∈ j.job.status.tasks, 0 ≤ r.retryIndex ∧ r.retryIndex < j0.job.maxAttempts ∧
       ∀ i, 0 ≤ i → i < r.retryIndex → ∃ r' ∈ j.job.status.tasks, r'.hash s.d = r.hash s.d ∧ r'.retryIndex = i) ∧
-    (∀ p ∈ s.pods, ∀ idx retry, p.pod.parallelIndex = some idx → p.pod.retryIndex = some retry →
+    (∀ p ∈ s.pods, p.ownerUid = some j0.uid → ∀ idx retry, p.pod.parallelIndex = some idx →
+      p.pod.retryIndex = some retry →
       ∀ i, 0 ≤ i → i < retry → ∃ r' ∈ j.job.status.tasks, r'.hash s.d = idx.hash ∧ r'.retryIndex = i) := by
-  have h4 := inv4_of_reach hok hr hwf
-  exact ⟨h4.contig j (Or.inl hj), fun p hp => h4.down j hj p (Or.inl hp)⟩
+  have h4 := inv4_of_reach hr hwf
+  exact ⟨h4.contig j (Or.inl hj), fun p hp ho => h4.down j hj p (Or.inl hp) ho⟩
 
 example : Reach stabChecked Ex.job Ex.sA ∧ Ex.sA.job.isSome = true ∧ WF2 Ex.job Ex.sA.d ∧ WF3 Ex.job ∧
     Ex.sA.pods.map (fun p => (p.pod.name, p.pod.isFinished)) = [("job-h-0", false)] :=
   ⟨Ex.sA_reach_st, by decide +kernel, ⟨by decide +kernel, by decide +kernel⟩, Ex.wf3_job, by decide +kernel⟩
 
-example : Reach noForeign Ex.job2 Ex.u3 ∧
+example : Reach anyAction Ex.job2 Ex.u3 ∧
     Ex.u3.job.map (fun j => j.job.status.tasks.map (fun r => (r.name, r.retryIndex))) =
       some [("job-a-0", 0), ("job-b-0", 0), ("job-a-1", 1)] :=
-  ⟨Ex.u3_reach.mono (fun _ a h => by cases a <;> simp_all [lagAndLoss, noForeign]), by decide +kernel⟩
+  ⟨Ex.u3_reach.mono (fun _ _ _ => trivial), by decide +kernel⟩
 
 /-- hypotheses are satisfiable: the first pass of the example history creates `job-h-0` for index
 `h`, retry 0 -/
